@@ -9,6 +9,7 @@ import (
 	"bytes"
 	"encoding/hex"
 	"fmt"
+	"math"
 	"math/big"
 	"sort"
 	"strings"
@@ -294,8 +295,14 @@ func genMut(r *hx.Rng, exotic bool) *Op {
 		case 15:
 			return &Op{K: "AddLog", N: uint64(r.Intn(200))}
 		case 16:
+			if r.Intn(12) == 0 { // the counter is a uint64 and wraps
+				return &Op{K: "AddRefund", N: math.MaxUint64 - uint64(r.Intn(40))}
+			}
 			return &Op{K: "AddRefund", N: uint64(r.Intn(50))}
 		case 17:
+			if r.Intn(4) == 0 { // beyond the counter: panics after journalling
+				return &Op{K: "SubRefund", N: uint64(1000 + r.Intn(30)), H: 1}
+			}
 			return &Op{K: "SubRefund", N: uint64(r.Intn(30))}
 		case 18:
 			return &Op{K: "ALAddr", A: a}
@@ -434,6 +441,22 @@ func (c *execCtx) step(o *Op) string {
 	case "AddRefund":
 		s.AddRefund(o.N)
 	case "SubRefund":
+		if o.N > s.GetRefund() && o.H == 1 {
+			// deliberate underflow: the call appends its journal entry and then panics, the counter stays
+			pan := false
+			func() {
+				defer func() {
+					if recover() != nil {
+						pan = true
+					}
+				}()
+				s.SubRefund(o.N)
+			}()
+			if pan {
+				return "APanic"
+			}
+			return "AU"
+		}
 		if o.N > s.GetRefund() {
 			if c.concretise {
 				o.N = s.GetRefund()
@@ -669,8 +692,12 @@ func main() {
 	common.SetBlockHeight(10)
 	account.Init()
 	rng := hx.NewRng(a.Seed)
-	res := hx.NewResult("one evaluation = one reverted bracket (recorded queries before Snapshot vs after RevertToSnapshot), one root comparison (executed+reverted vs reference replay of the surviving operations, per deleteEmptyObjects flag) or one end-of-program comparison of refund/logs/access list/transient storage with that reference replay; nontrivial = at least one journalled mutation was executed inside a reverted bracket; distinct by program text")
-	cs := hx.NewCases(a.Out, "From V.C04 Require Import Model Harness.", "tcase", "check", 60)
+	res := hx.NewResult("one evaluation = one reverted bracket (recorded queries before Snapshot vs after RevertToSnapshot), one root comparison (executed+reverted vs reference replay of the surviving operations, per deleteEmptyObjects flag) one end-of-program comparison of refund/logs/access list/transient storage with that reference replay, or one post-Finalise life-cycle probe of an address (deleted object = dead address, never-existing address creatable); nontrivial = at least one journalled mutation was executed inside a reverted bracket; distinct by program text")
+	perShard := 60
+	if a.Tier == "thorough" {
+		perShard = 150 // 12000 programs -> 80 shards
+	}
+	cs := hx.NewCases(a.Out, "From V.C04 Require Import Model Harness.", "tcase", "check", perShard)
 
 	nCases := a.N
 	phase2At := nCases / 2
@@ -713,7 +740,7 @@ func main() {
 		// on a modified slot); the random program is built around them
 		var inject []*Item
 		delCommit := r.Intn(3) == 0
-		switch r.Intn(20) {
+		switch r.Intn(22) {
 		case 0:
 			x := r.Intn(6)
 			pre = []*Item{{Op: &Op{K: "CreateAccount", A: x}}, {Op: &Op{K: "SetData", A: (x + 1) % 6, Key: 1, V: []byte{3}}}}
@@ -761,6 +788,15 @@ func main() {
 			default:
 				inject = []*Item{{Op: &Op{K: "Suicide", A: x}}, credit(), {Body: []*Item{credit(), inner, credit()}, Rv: r.Intn(2) == 0, Obs: obs}}
 			}
+		case 8:
+			// uint64 wrap-around of the nonce, kept or reverted
+			x := r.Intn(6)
+			wrap := []*Item{{Op: &Op{K: "SetNonce", A: x, N: math.MaxUint64 - uint64(r.Intn(2))}}, {Op: &Op{K: "IncNonce", A: x}}, {Op: &Op{K: "IncNonce", A: x}}}
+			if r.Intn(2) == 0 {
+				inject = wrap
+			} else {
+				inject = []*Item{{Body: wrap, Rv: r.Intn(2) == 0, Obs: []*Op{{K: "GetNonce", A: x}}}}
+			}
 		case 4:
 			// a committed empty account written inside a reverted bracket
 			x := r.Intn(6)
@@ -800,6 +836,14 @@ func main() {
 		}
 		ptxt := coqItems(prog)
 		f := facts(prog)
+		// guard of theorem C04_continuation (reverted parts and continuation): Proposal002, no self-destruct,
+		// no zero-amount AddFT (touch), no GetCommittedState anywhere in the program
+		guarded := p002
+		walk(prog, func(o *Op, rev bool) {
+			if o.K == "Suicide" || o.K == "GetCommitted" || (o.K == "AddFT" && o.N == 0) {
+				guarded = false
+			}
+		}, false)
 
 		// run 1 (concretises SubRefund amounts), finalise(false)
 		c1, pan := execute(root0, adb, prog, true)
@@ -866,6 +910,7 @@ func main() {
 		ref := erase(prog)
 		var fin [2]map[int]leaf
 		bad := false
+		commitDiffers := false
 		for di, del := range []bool{false, true} {
 			cx := c1
 			if del {
@@ -896,6 +941,12 @@ func main() {
 					res.Count(class+"/continuation-globals-differ", ptxt+"/g", muts > 0)
 				}
 			}
+			existed := map[int]bool{}
+			if del {
+				for _, a := range addrIDs {
+					existed[a] = cx.s.Exist(addrOf[a])
+				}
+			}
 			ir, cr, d, e := finalise(cx, adb, del)
 			if e != nil {
 				res.Violate("C04/panic:finalise", fmt.Sprint(e), ptxt)
@@ -903,8 +954,19 @@ func main() {
 				break
 			}
 			fin[di] = d
+			if del {
+				lifecycle(res, cx.s, existed, class, ptxt)
+			}
 			if ir != cr {
-				res.Violate("C04/commit-differs-from-intermediate-root", fmt.Sprintf("IntermediateRoot(%v)=%s Commit(%v)=%s", del, ir.Hex(), del, cr.Hex()), ptxt)
+				commitDiffers = true
+				key := "C04/commit-differs-from-intermediate-root"
+				if len(f.revTouch) > 0 {
+					// a reverted touch left the object disarmed: a later Suicide marks it self-destructed without putting it
+					// into the dirty set, so Finalise (dirty set) keeps the account and Commit (all objects) deletes it
+					key = "C04/root-after-revert:touch-undo-leaves-dirty-callback-disarmed"
+				}
+				res.Violate(key, fmt.Sprintf("IntermediateRoot(%v)=%s but Commit(%v)=%s", del, ir.Hex(), del, cr.Hex()),
+					map[string]interface{}{"p002": p002, "start": coqDump(start), "program": ptxt})
 			}
 			rir, _, rd, e2 := finalise(rc, adb, del)
 			if e2 != nil {
@@ -913,9 +975,19 @@ func main() {
 				break
 			}
 			cl := fmt.Sprintf("%s/root-equal(del=%v)", class, del)
+			if guarded && !del {
+				cl = class + "/theorem-guarded/root-equal(del=false)"
+			}
 			if rir != ir {
 				cl = fmt.Sprintf("%s/root-differs(del=%v)", class, del)
 				key, what := classifyRoot(d, rd, start, del, p002, f)
+				if commitDiffers && len(f.revTouch) > 0 && strings.Contains(key, "no-leaf-in-universe-differs") {
+					key = "C04/root-after-revert:touch-undo-leaves-dirty-callback-disarmed" // the leaves were read back from Commit's trie
+				}
+				if guarded && !del {
+					// the program satisfies the guard of theorem C04_continuation: no listed finding may explain this
+					key = "C04/continuation:root-differs-under-theorem-guard"
+				}
 				res.Violate(key, what, map[string]interface{}{"deleteEmptyObjects": del, "p002": p002, "token_bound": ci >= phase2At,
 					"start": coqDump(start), "program": ptxt, "reference_program": coqItems(ref),
 					"root": ir.Hex(), "reference_root": rir.Hex(), "leaves": coqDump(d), "reference_leaves": coqDump(rd)})
@@ -923,6 +995,11 @@ func main() {
 			res.Count(cl, fmt.Sprintf("%s/%v", ptxt, del), muts > 0)
 		}
 		if bad {
+			continue
+		}
+		if commitDiffers {
+			// the leaves were dumped from Commit's trie, the model describes Finalise: no model case
+			res.Count(class+"/commit-differs-from-finalise(no model case)", ptxt+"/cd", true)
 			continue
 		}
 		// model case
@@ -940,6 +1017,43 @@ func main() {
 	cs.Close()
 	res.ModelCases = cs.Total()
 	res.Write(a.Out)
+}
+
+// lifecycle checks the model of getAccountObject around the deleted flag (coq/C04/Totality.v) on the real
+// AccountDB after IntermediateRoot+Commit: an address that existed and was deleted is dead (writes through
+// the nil-checking entry points are dropped, CreateAccount does not bring it back, GetFT dereferences nil);
+// an address that never existed can still be created.
+func lifecycle(res *hx.Result, s *account.AccountDB, existed map[int]bool, class, ptxt string) {
+	for _, a := range addrIDs {
+		if a == tokenID {
+			continue
+		}
+		ad := addrOf[a]
+		now := s.Exist(ad)
+		if existed[a] && !now {
+			s.SetNonce(ad, 5)
+			s.CreateAccount(ad)
+			pan := false
+			func() {
+				defer func() {
+					if recover() != nil {
+						pan = true
+					}
+				}()
+				s.GetFT(ad, ftName)
+			}()
+			if s.Exist(ad) || s.GetNonce(ad) != 0 || !pan {
+				res.Violate("C04/lifecycle:deleted-object-model-mismatch", fmt.Sprintf("address %d was deleted by Finalise; afterwards Exist=%v GetNonce=%d GetFT panics=%v (model: dead address: false, 0, true)", a, s.Exist(ad), s.GetNonce(ad), pan), ptxt)
+			}
+			res.Count(class+"/lifecycle/deleted-address-is-dead", fmt.Sprintf("%s/lc%d", ptxt, a), true)
+		} else if !existed[a] && !now {
+			s.CreateAccount(ad)
+			if !s.Exist(ad) {
+				res.Violate("C04/lifecycle:fresh-address-not-creatable", fmt.Sprintf("address %d never existed; CreateAccount after Finalise did not create it", a), ptxt)
+			}
+			res.Count(class+"/lifecycle/fresh-address-creatable", fmt.Sprintf("%s/lc%d", ptxt, a), false)
+		}
+	}
 }
 
 func coqCodes() string {
